@@ -262,10 +262,17 @@ def run_ledger(run):
     # further driver modes whose traces are validated against the same predicates
     for prof, flags, frac in spec.get("extra_runs", []):
         plan.append((prof, flags, max(2, int(ntr * frac))))
+    # record every chunk (sequential: the harness is quick), then let TLC validate the chunks - four at a time in the thorough tier
+    recorded = []
     for ch, (prof, flags, ntr_ch) in enumerate(plan):
         trace = os.path.join(run.dir, "ledger-%d.ndjson" % ch)
         st = run.harness(["ledger", "-seed", str(run.seed * 100 + ch), "-traces", str(ntr_ch), "-steps", str(sz["steps"]), "-profile", prof, "-out", trace] + flags)
-        viols, done = run.validate(trace, spec["preds"], label="tv%d" % ch)
+        recorded.append((ch, trace, st))
+    import concurrent.futures
+    with concurrent.futures.ThreadPoolExecutor(max_workers=1 if run.tier == "quick" else 4) as ex:
+        futs = [(ch, trace, st, ex.submit(run.validate, trace, spec["preds"], "EsdtTrace", "tv%d" % ch, 7200)) for ch, trace, st in recorded]
+        results = [(ch, trace, st) + f.result() for ch, trace, st, f in futs]
+    for ch, trace, st, viols, done in results:
         if done["lines"] != st["lines"]:
             raise Infra("trace validation consumed %d of %d lines" % (done["lines"], st["lines"]))
         total["lines"] += done["lines"]
@@ -277,9 +284,10 @@ def run_ledger(run):
         if ch == 0:
             lines = read_lines(trace, [5, 40, 90])
             run.cov["samples"] += [{"line": k, "event": slim_event(v["ev"])} for k, v in lines.items()]
-        if run.tier == "thorough":
+    if run.tier == "thorough" and not run.violations:
+        for ch, trace, st in recorded:
             os.remove(trace)
-            os.remove(trace + ".replay") if not run.violations else None
+            os.remove(trace + ".replay")
     run.cov["evaluations"] = total["lines"]
     run.cov["distinct_nontrivial"] = sum(1 for k, v in total["counters"].items() if v > 0 and k not in ("steps", "ok", "err", "unk", "pred"))
     run.cov["rule"] = ("seeded random drivers over 1-3 shard worlds executing the factory-built functions of /repo; every step recorded with the complete projected world; "
